@@ -27,9 +27,16 @@ def judge(case):
     n = len(ops)
     bb = build(ops)
     try:
-        G = to_DiGraph(bb)
+        G1 = to_DiGraph(bb)
+        G = to_DiGraph(bb)          # converting is read-only: the second graph of the same program is judged
     except BaseException as e:      # noqa: BLE001
         return "bad", "to_DiGraph raised %s: %s" % (type(e).__name__, e)
+    if sorted(G1.edges()) != sorted(G.edges()) or dict(G1.nodes(data="modes")) != dict(G.nodes(data="modes")):
+        return "bad", "two conversions of the same program differ: edges %s / %s, modes %s / %s" % (
+            sorted(G1.edges()), sorted(G.edges()), dict(G1.nodes(data="modes")), dict(G.nodes(data="modes")))
+    for i, o in enumerate(ops):
+        if list(bb.operations[i]["modes"]) != list(o["modes"]):
+            return "bad", "after to_DiGraph operation %d of the program has modes %s, it was built with %s" % (i, bb.operations[i]["modes"], o["modes"])
     if sorted(G.nodes()) != list(range(n)):
         return "bad", "nodes %s, expected one node per operation 0..%d" % (sorted(G.nodes()), n - 1)
     for i, o in enumerate(ops):
